@@ -4,7 +4,7 @@ from .context import Ctx
 from .report import Report
 from . import rules_effects, rules_own, rules_wipe, rules_tables, rules_bits, rules_api, rules_char, rules_cmp, rules_birthday, rules_bounds
 
-TB_COMMON = ['clang-14 parsing and -O0 lowering of C11 (+ opt-14 mem2reg)', 'LLVM x86-64 data layout',
+TB_COMMON = ['clang-14 parsing and -O0 lowering of C11 (+ opt-14 sroa)', 'LLVM x86-64 data layout',
              'tools/irfacts.cc (IR -> JSON, no analysis)', 'psa/ir.py CFG, dominators, inclusion-based points-to']
 
 
